@@ -172,12 +172,13 @@ def make_reg(key, missing, opts):
 def E(name, cls, init=None, model=None, task="clf", feat=True, sw=None,
       sel="max", arb_idx=False, K=(2, 3), min_n=2, max_n=12, weight=1.0,
       sample_weight=False, utility_weight=False, notes="", defaults=True,
-      cluster=False):
+      cluster=False, alt=None):
     return dict(name=name, cls=cls, init=init or {}, model=model, task=task,
                 feat=feat, sw=sw, sel=sel, arb_idx=arb_idx, K=tuple(K),
                 min_n=min_n, max_n=max_n, weight=weight,
                 sample_weight=sample_weight, utility_weight=utility_weight,
-                notes=notes, defaults=defaults, cluster=cluster)
+                notes=notes, defaults=defaults, cluster=cluster,
+                alt=list(alt or []))
 
 
 CM2 = [[0.0, 1.0], [3.0, 0.0]]
@@ -203,7 +204,9 @@ POOL_ENTRIES = [
     E("ProbabilisticAL", "ProbabilisticAL", {}, ("clf", "pwc"), sw="full",
       arb_idx=True, sample_weight=True, utility_weight=True),
     E("ProbabilisticAL[rbf]", "ProbabilisticAL", {"metric": "rbf"},
-      ("clf", "pwc"), sw="full", arb_idx=True),
+      ("clf", "pwc"), sw="full", arb_idx=True,
+      alt=[{"metric_dict": {"gamma": "mean"}},
+           {"metric_dict": {"gamma": 0.7}}]),
     E("EpistemicUS[pwc]", "EpistemicUncertaintySampling", {},
       ("clf", "pwc"), sw="full", arb_idx=True, K=(2,)),
     E("EpistemicUS[pwc,precompute]", "EpistemicUncertaintySampling",
@@ -240,10 +243,12 @@ POOL_ENTRIES = [
     E("BatchBALD", "BatchBALD", {}, ("ensemble", "pwc_list"), sw="row0",
       arb_idx=True),
     E("Quire", "Quire", {"classes": "$classes"}, None, feat=False, sw="full",
-      weight=0.7),
+      weight=0.7, alt=[{"metric_dict": {"gamma": 0.5}, "lmbda": 0.5}]),
     E("FourDs", "FourDs", {}, ("clf", "mmc"), sw=None, min_n=4, weight=0.5),
     E("CostEmbeddingAL", "CostEmbeddingAL", {"classes": "$classes"}, None,
-      sw="r", max_n=9, weight=0.15),
+      sw="r", max_n=9, weight=0.15,
+      alt=[{"cost_matrix": "$cost", "mds_params": {"max_iter": 30},
+            "nn_params": {"n_neighbors": 1}}]),
     E("DiscriminativeAL[greedy]", "DiscriminativeAL",
       {"greedy_selection": True}, ("discriminator", "pwc"), task="any",
       feat=False, sw="full", arb_idx=True),
@@ -256,12 +261,14 @@ POOL_ENTRIES = [
       task="any", feat=False, sw="r", cluster=True),
     E("ProbCover", "ProbCover",
       {"cluster_algo_dict": {"random_state": 0, "n_init": 1}}, None,
-      task="clf", feat=False, sw=None, cluster=True),
+      task="clf", feat=False, sw=None, cluster=True,
+      alt=[{"deltas": ("$np", [1.0, 0.4, 2.0, 0.2]), "n_classes": 2},
+           {"deltas": [0.5, 1.5, 1.0], "alpha": 0.9}]),
     E("Badge", "Badge", {}, ("clf", "pwc"), sw=None, sel="sample"),
     E("Badge[lr]", "Badge", {}, ("clf", "lr"), sw=None, sel="sample",
       weight=0.3),
     E("ContrastiveAL", "ContrastiveAL", {}, ("clf", "pwc"), sw="full",
-      arb_idx=True),
+      arb_idx=True, alt=[{"nearest_neighbors_dict": {"n_neighbors": 2}}]),
     E("Clue", "Clue",
       {"cluster_algo_dict": {"random_state": 0, "n_init": 1}},
       ("clf", "pwc"), feat=False, sw=None, cluster=True),
@@ -270,7 +277,8 @@ POOL_ENTRIES = [
       ("clf", "pwc"), feat=False, sw=None, cluster=True),
     E("Falcun", "Falcun", {}, ("clf", "pwc"), sw=None, sel="sample"),
     E("GreedySamplingX", "GreedySamplingX", {}, None, task="any",
-      sw="row0", arb_idx=True),
+      sw="row0", arb_idx=True,
+      alt=[{"metric": "rbf", "metric_dict": {"gamma": 0.5}}]),
     E("GreedySamplingTarget[GSi]", "GreedySamplingTarget", {"method": "GSi"},
       ("reg", "nic"), task="reg", sw="row0", arb_idx=True),
     E("GreedySamplingTarget[GSy]", "GreedySamplingTarget", {"method": "GSy"},
@@ -280,9 +288,13 @@ POOL_ENTRIES = [
     E("ExpectedModelOutputChange", "ExpectedModelOutputChange", {},
       ("reg", "nic"), task="reg", sw="full", arb_idx=True, weight=0.5),
     E("ExpectedModelVarianceReduction", "ExpectedModelVarianceReduction", {},
-      ("reg", "nic"), task="reg", sw="full", arb_idx=True, weight=0.5),
+      ("reg", "nic"), task="reg", sw="full", arb_idx=True, weight=0.5,
+      alt=[{"integration_dict": {"method": "assume_linear"}}]),
     E("KLDivergenceMaximization", "KLDivergenceMaximization", {},
-      ("reg", "nic"), task="reg", sw="full", arb_idx=True, weight=0.4),
+      ("reg", "nic"), task="reg", sw="full", arb_idx=True, weight=0.4,
+      alt=[{"integration_dict_target_val": {"method": "assume_linear"},
+            "integration_dict_cross_entropy": {
+                "method": "gauss_hermite", "n_integration_samples": 3}}]),
     E("RegressionTreeBasedAL[random]", "RegressionTreeBasedAL",
       {"method": "random"}, ("reg", "tree"), task="reg", sw=None),
     E("RegressionTreeBasedAL[diversity]", "RegressionTreeBasedAL",
@@ -392,6 +404,8 @@ def _resolve_init(init, classes, K, opts):
             out[k] = float(opts.get("max_candidates_float", 0.5))
         elif v == "$n_jobs":
             out[k] = int(opts.get("n_jobs", 2))
+        elif isinstance(v, tuple) and len(v) == 2 and v[0] == "$np":
+            out[k] = np.array(v[1], dtype=float)
         elif isinstance(v, dict):
             out[k] = dict(v)
         else:
@@ -413,7 +427,11 @@ def build_strategy(name, data, case, seed=None, defaults=False):
             query_strategy=inner, missing_label=data["missing"],
             random_state=seed, **init)
         return qs, qk
-    init = _resolve_init(e["init"], data["classes"], case.get("K", 2), opts)
+    init_spec = dict(e["init"])
+    ai = opts.get("alt_init")
+    if ai is not None and e["alt"]:
+        init_spec.update(e["alt"][int(ai) % len(e["alt"])])
+    init = _resolve_init(init_spec, data["classes"], case.get("K", 2), opts)
     if defaults:
         # all-defaults configuration: only mandatory / structural params
         init = {k: v for k, v in init.items()
